@@ -20,7 +20,8 @@ static void one(int w, uint64_t bits) {
   unsigned char in[9];
   in[0] = w == 2 ? 0xf9 : w == 4 ? 0xfa : 0xfb;
   for (int i = 0; i < w; i++) in[1 + i] = (unsigned char)(bits >> (8 * (w - 1 - i)));
-  unsigned char* ex = malloc(1 + w);
+  unsigned char* exblk;
+  unsigned char* ex = vh_exact_rot(1 + w, &exblk); /* start address rotates through all alignments */
   memcpy(ex, in, 1 + w);
   fprintf(vh_out, "{\"e\":\"%s\"", w == 2 ? "half" : w == 4 ? "single" : "double");
   vh_kbytes("b", in + 1, w);
@@ -33,7 +34,7 @@ static void one(int w, uint64_t bits) {
   /* tree decoder + getters */
   struct cbor_load_result r;
   cbor_item_t* it = cbor_load(ex, 1 + w, &r);
-  free(ex);
+  free(exblk);
   if (it && cbor_isa_float_ctrl(it) && cbor_is_float(it)) {
     int iw = 1 << cbor_float_get_width(it);
     vh_kint("w", iw);
